@@ -62,6 +62,42 @@ func planWriteInfo(addr ssa.Value) (root ssa.Value, touchesPlan bool, what strin
 	return v, touchesPlan, what
 }
 
+// viaSharedField: the written address is reached through a load of a slice/pointer field of a
+// local struct variable that was filled by copying a whole struct into it (`cpy := *step`):
+// the variable is new, but what its fields point to still belongs to the original.
+func viaSharedField(addr ssa.Value) bool {
+	v := addr
+	for i := 0; i < 12; i++ {
+		switch x := v.(type) {
+		case *ssa.FieldAddr:
+			v = x.X
+		case *ssa.IndexAddr:
+			v = x.X
+		case *ssa.Slice:
+			v = x.X
+		case *ssa.UnOp:
+			fa, ok := x.X.(*ssa.FieldAddr)
+			if x.Op != token.MUL || !ok {
+				return false
+			}
+			if al, isAl := fa.X.(*ssa.Alloc); isAl {
+				for _, st := range storesTo(al) {
+					if _, isStruct := st.Val.Type().Underlying().(*types.Struct); isStruct && st.Addr == ssa.Value(al) {
+						if _, zero := st.Val.(*ssa.Const); !zero {
+							return true
+						}
+					}
+				}
+				return false
+			}
+			v = fa
+		default:
+			return false
+		}
+	}
+	return false
+}
+
 func isFreshRoot(root ssa.Value, fn *ssa.Function) bool {
 	switch x := root.(type) {
 	case *ssa.Alloc:
@@ -81,7 +117,7 @@ func planWriters(P *Prog) map[*ssa.Function][]ssa.Instruction {
 			switch x := ins.(type) {
 			case *ssa.Store:
 				root, touches, _ := planWriteInfo(x.Addr)
-				if touches && !isFreshRoot(root, fn) {
+				if touches && (!isFreshRoot(root, fn) || viaSharedField(x.Addr)) {
 					out[fn] = append(out[fn], ins)
 				}
 			case *ssa.MapUpdate:
@@ -91,6 +127,11 @@ func planWriters(P *Prog) map[*ssa.Function][]ssa.Instruction {
 					}
 				}
 			case ssa.CallInstruction:
+				// copy(dst, …) with dst a slice held in a plan object overwrites the elements
+				if w, _ := planCopyWrite(x, fn); w {
+					out[fn] = append(out[fn], ins)
+					continue
+				}
 				// a library object embedded in the plan (atomic.Value, sync.Once, sync.Map …)
 				// written through its own pointer-receiver method
 				if w, _ := planLibraryWrite(x, fn); w {
@@ -100,6 +141,29 @@ func planWriters(P *Prog) map[*ssa.Function][]ssa.Instruction {
 		}
 	}
 	return out
+}
+
+// planCopyWrite: ins is the builtin copy whose destination is (a slice of) a slice held in a
+// field of a plan object the function did not build itself.
+func planCopyWrite(ci ssa.CallInstruction, fn *ssa.Function) (bool, string) {
+	c := ci.Common()
+	b, ok := c.Value.(*ssa.Builtin)
+	if !ok || b.Name() != "copy" || len(c.Args) != 2 {
+		return false, ""
+	}
+	dst := c.Args[0]
+	for {
+		sl, isSl := dst.(*ssa.Slice)
+		if !isSl {
+			break
+		}
+		dst = sl.X
+	}
+	root, touches, what := planWriteInfo(dst)
+	if !touches || (isFreshRoot(root, fn) && !viaSharedField(dst)) {
+		return false, ""
+	}
+	return true, "elements of " + what + " (copy)"
 }
 
 // planLibraryWrite: ins calls a pointer-receiver method of a type declared outside the module
@@ -173,7 +237,11 @@ func rulePlanImmutable(r *Run) {
 			case *ssa.MapUpdate:
 				what = "ScrubFields[…]"
 			case ssa.CallInstruction:
-				_, what = planLibraryWrite(x, fn)
+				if w, s := planCopyWrite(x, fn); w {
+					what = s
+				} else {
+					_, what = planLibraryWrite(x, fn)
+				}
 			}
 			if C[fn] {
 				r.OK(rule, fnName(fn), "write "+what, r.P.pos(ins.Pos()), "writer belongs to the construction set (reachable from SequentialPlanner.Plan)")
@@ -354,6 +422,40 @@ func ruleCacheKey(r *Run) {
 				"the plan is stored under a different key value than the one used for the lookup")
 		}
 	}
+	ruleCacheStoresSuccess(r, plan, inner)
+}
+
+// ruleCacheStoresSuccess (R10a, part 4): what is put into the plan cache is the result of a
+// delegate Plan call that succeeded — the store lies on the success side of that call's
+// error test. A cached failure (a nil plan) is served to every later identical operation
+// without an error.
+func ruleCacheStoresSuccess(r *Run, plan *ssa.Function, inner []*ssa.Call) {
+	const rule = "R10a"
+	n := 0
+	for _, ins := range allInstrs(plan) {
+		mu, ok := ins.(*ssa.MapUpdate)
+		if !ok || !isCacheMap(mu.Map) {
+			continue
+		}
+		n++
+		good := false
+		for _, ic := range inner {
+			errv := errorOfCall(ic)
+			if errv == nil {
+				continue
+			}
+			for _, t := range failureTests(errv) {
+				b := mu.Block()
+				if (t.ok == b || t.ok.Dominates(b)) && t.fail != b && !blockReach(t.fail)[b] {
+					good = true
+				}
+			}
+		}
+		r.Check(good, rule, fnName(plan), "only successful plans are cached", r.P.pos(mu.Pos()),
+			"the store is reached only after the delegate planner's error was tested and found nil",
+			"the cache is written without (or before) testing the error of the delegate planner: a failed planning is cached as a nil plan, the next identical operation gets that nil plan *without* an error and the handler dereferences it")
+	}
+	r.AtLeast(rule, "stores into the plan cache", n, 1)
 }
 
 func isCacheMap(v ssa.Value) bool {
